@@ -18,6 +18,8 @@ import (
 //	pair      one snapshot carrying two transfers (Src[0], Src[1])
 //	pledge    node pledge spending the 13439 XIN output of step Src[0] (consensus class)
 //	accept    node accept of the node pledged by step Src[0] (consensus class, new chain)
+//	dup       a snapshot of ANOTHER chain that contains the already finalized transaction(s) of step Src[0]
+//	          (legal in the DAG; the first finalization stays the transaction's finalization)
 //	mint      universal mint of the next batch (consensus class) on the elected chain, in the mint window of
 //	          day 1707+ after the epoch; the work/space aggregates the mint distribution reads are seeded
 //	          directly in the store (they are the output of the background aggregators, not of the workload)
@@ -38,28 +40,29 @@ type Spec struct {
 }
 
 type Runner struct {
-	env    *Env
-	node   *kernel.Node
-	store  *CrashStore
-	spec   *Spec
-	ts     uint64
-	txOf   map[int][]*common.VersionedTransaction // step -> transactions it made
-	tsOf   map[int]uint64
-	plIdx  map[int]int // pledge step -> pledger number
-	npl    int
-	lastOp uint64          // timestamp of the latest node operation
-	host   int             // chain of the step whose marker write is being interleaved (-1: none)
-	mints  int             // mint steps executed
-	workRd map[int]uint64  // chain -> next WriteRoundWork round
-	seeded map[uint64]bool // absolute day -> works seeded
-	Log    []string
+	env     *Env
+	node    *kernel.Node
+	store   *CrashStore
+	spec    *Spec
+	ts      uint64
+	txOf    map[int][]*common.VersionedTransaction // step -> transactions it made
+	tsOf    map[int]uint64
+	plIdx   map[int]int // pledge step -> pledger number
+	npl     int
+	lastOp  uint64          // timestamp of the latest node operation
+	host    int             // chain of the step whose marker write is being interleaved (-1: none)
+	mints   int             // mint steps executed
+	workRd  map[int]uint64  // chain -> next WriteRoundWork round
+	seeded  map[uint64]bool // absolute day -> works seeded
+	onChain map[string]bool // "tx hash|chain" -> a snapshot of that chain contains the transaction
+	Log     []string
 }
 
 func NewRunner(env *Env, node *kernel.Node, store *CrashStore, spec *Spec) *Runner {
 	return &Runner{env: env, node: node, store: store, spec: spec,
 		ts:   env.Epoch + day + hour + uint64(time.Minute),
 		txOf: map[int][]*common.VersionedTransaction{}, tsOf: map[int]uint64{}, plIdx: map[int]int{}, host: -1,
-		workRd: map[int]uint64{}, seeded: map[uint64]bool{}}
+		workRd: map[int]uint64{}, seeded: map[uint64]bool{}, onChain: map[string]bool{}}
 }
 
 func (r *Runner) logf(f string, a ...any) { r.Log = append(r.Log, fmt.Sprintf(f, a...)) }
@@ -280,6 +283,20 @@ func (r *Runner) runStep(i int) {
 		}
 		el := r.node.VerifC21ElectSnapshotNode(common.TransactionTypeNodePledge, r.ts)
 		chainIdx = r.env.ChainIndex(el)
+	case "dup":
+		txs = append(txs, r.txOf[st.Src[0]]...)
+		for tries := 0; tries < r.env.N; tries++ {
+			free := true
+			for _, t := range txs {
+				if r.onChain[fmt.Sprintf("%s|%d", t.PayloadHash(), chainIdx)] {
+					free = false
+				}
+			}
+			if free {
+				break
+			}
+			chainIdx = (chainIdx + 1) % r.env.N
+		}
 	case "mint":
 		t, ci := r.mint(i)
 		if t != nil {
@@ -314,7 +331,10 @@ func (r *Runner) runStep(i int) {
 	r.txOf[i] = txs
 	// admission: the transactions arrive from peers into the cache store
 	for _, t := range txs {
-		must(r.store.CacheStoreTransaction(t))
+		if st.Kind != "dup" {
+			must(r.store.CacheStoreTransaction(t))
+		}
+		r.onChain[fmt.Sprintf("%s|%d", t.PayloadHash(), chainIdx)] = true
 	}
 
 	id := r.env.Chains[chainIdx]
